@@ -10,11 +10,18 @@ and the statements do not overlap (`scan_positions`), and the scan never ends in
 out-of-range slice expressions (`scan_never_panics`). Both are false on the pinned commit – witnesses
 `pinned_header_pos`, `pinned_delimiter_quote_panics`.
 
+`fuel_suffices`, `fuel_irrelevant` (over `Lemmas/LexFuel.lean`): the loops of the model are written with a
+fuel argument; for EVERY input and option set the fuel `scan` hands out is never exhausted (`Out.fuel` is
+not a possible outcome) and the result is the same for every larger fuel – every iteration of the `Scan:`
+loop that goes on consumes a byte, every returned statement shortens the input, nested BEGIN blocks run on
+strictly shorter input. So the model's answers are those of the unbounded loops of lex.go, and those
+loops terminate on every input (`statement_shortens_input`, `iteration_consumes`).
+
 Not proved (covered by the correspondence + monitor only): that everything between statements is
-blank/comment/delimiter text (`lossless`), and that the fuel `scan` hands to the loops suffices
-(`fuel_suffices`; the outcome `Out.fuel` has never been observed).
+blank/comment/delimiter text (`lossless`).
 -/
 import Lemmas.Lex
+import Lemmas.LexFuel
 
 namespace Props.C08
 open Atlas Atlas.Lex
@@ -366,6 +373,74 @@ theorem positions_map_to_lines (o : Opts) (src : Bytes) (stmts : List Stmt) (h :
   · unfold lineOf; rfl
 
 /-! ### non-vacuity and the pinned commit's counterexamples (tests by evaluation) -/
+
+/-! ### termination: the fuel of the model is never the limit -/
+
+/-- **iteration_consumes**: an iteration of the `Scan:` loop that continues has moved the cursor forward
+by at least one byte (whatever the nested-scanner oracle answers), so the loop of `stmt` terminates. -/
+theorem iteration_consumes (fixed : Bool) (o : Opts) (body : Bool → Bytes → St → Option Nat) (s s' : St)
+    (d op d' op' : Nat) (h : step fixed o body s d op = .cont s' d' op') : rem s' + 1 ≤ rem s := by
+  have := step_prog fixed o body s d op
+  rw [h] at this
+  exact this.1
+
+/-- **statement_shortens_input**: every statement `stmt` returns leaves strictly less input behind, so the
+`for` loop of `Scan` (and of the nested BEGIN … END scanners) terminates. -/
+theorem statement_shortens_input (fixed : Bool) (o : Opts) (fuel : Nat) (s s' : St) (st : Stmt)
+    (hp : s.pos = 0) (hd : s.delim ≠ []) (h : stmt fixed o fuel s = (s', .inr st)) :
+    s'.input.length < s.input.length := by
+  have := (stmt_prog fixed o fuel s s' st h hp hd).2.1
+  omega
+
+theorem fuelFor_ge (input : Bytes) : 3 * input.length + 2 ≤ fuelFor input := by
+  unfold fuelFor
+  have : (input.length + 3) * 3 ≤ (input.length + 3) * (input.length + 3) :=
+    Nat.mul_le_mul_left _ (by omega)
+  omega
+
+/-- both bounds at their thresholds. -/
+theorem scanWith_min (fixed : Bool) (o : Opts) (src : Bytes) (F n : Nat)
+    (hF : 3 * src.length + 2 ≤ F) (hn : src.length + 1 ≤ n) :
+    scanWith fixed o F n src ≠ .inl .fuel ∧
+    scanWith fixed o F n src = scanWith fixed o (3 * src.length + 2) (src.length + 1) src := by
+  unfold scanWith
+  cases hi : init fixed src with
+  | none => exact ⟨by simp, rfl⟩
+  | some s =>
+    obtain ⟨p1, p2, p3⟩ := init_shape hi
+    simp only
+    obtain ⟨r1, r2⟩ := scanAll_stable fixed o (src.length + 1) s [] (3 * src.length + 2) p1 p3 (by omega) (by omega)
+    have e := r2 (F - (3 * src.length + 2)) (n - (src.length + 1))
+    have eF : 3 * src.length + 2 + (F - (3 * src.length + 2)) = F := by omega
+    have en : src.length + 1 + (n - (src.length + 1)) = n := by omega
+    rw [eF, en] at e
+    rw [e]
+    exact ⟨r1, rfl⟩
+
+/-- **fuel_suffices**: for every input and every option set, the scan never stops because a loop of the
+model ran out of fuel. -/
+theorem fuel_suffices (fixed : Bool) (o : Opts) (src : Bytes) : scan fixed o src ≠ .inl .fuel := by
+  rw [scan_eq_scanWith]
+  exact (scanWith_min fixed o src _ _ (fuelFor_ge src) (by omega)).1
+
+/-- **fuel_irrelevant**: any larger bounds give the same result as `scan`: the model computes what the
+unbounded loops of lex.go compute. -/
+theorem fuel_irrelevant (fixed : Bool) (o : Opts) (src : Bytes) (F n : Nat)
+    (hF : 3 * src.length + 2 ≤ F) (hn : src.length + 1 ≤ n) :
+    scanWith fixed o F n src = scan fixed o src := by
+  rw [scan_eq_scanWith, (scanWith_min fixed o src F n hF hn).2,
+    (scanWith_min fixed o src _ _ (fuelFor_ge src) (by omega)).2]
+
+/-- the private fuel of the quote and dollar-quote loops (`len(input) + 1`) is never the limit either. -/
+theorem inner_fuel_suffices (q : UInt8) (e : Bool) (m : Bytes) (s : St) (k : Nat) :
+    skipQuoteLoop q e (s.input.length + 1 + k) s = skipQuoteLoop q e (s.input.length + 1) s ∧
+    dollarLoop m (s.input.length + 1 + k) s = dollarLoop m (s.input.length + 1) s :=
+  ⟨skipQuote_fuel_ok q e s k, dollarLoop_fuel_ok m s k⟩
+
+/-- an instance: any generous bounds give the result of `scan` (the hypotheses are plain size bounds). -/
+example (o : Opts) : scanWith true o 1000 1000 (Bytes.ascii "BEGIN x;END".toList) =
+    scan true o (Bytes.ascii "BEGIN x;END".toList) :=
+  fuel_irrelevant true o _ 1000 1000 (by decide) (by decide)
 
 def stmtsOpts : Opts := { matchBeginAtomic := true, matchDollarQuote := true }
 
